@@ -289,6 +289,8 @@ class AsyncTLSStreamTransport(AsyncStreamTransport):
                         async with self.__transport_send_lock:
                             if self._write_bio.pending:
                                 await self._transport.send_all(self._write_bio.read())
+                        # Another task may have fed the read BIO in the meantime: retry the SSL method first.
+                        continue
 
                     incoming_read_count = self.__incoming_read_count
                     async with self.__transport_recv_lock:
